@@ -22,7 +22,8 @@ RULE = ("frames of 56/112 bits (uniform, all-0/all-1, sparse, dense, the suite's
         "linearity; direct error injection (all weight<=3 patterns, all bursts <=12 at every offset, sampled weight 4-5 "
         "and bursts 13-24) on valid frames; syndrome closure: no 1..5 single-bit syndromes of the implementation XOR to 0. "
         "non-trivial = frame not all-zero (and, for error cases, the error touches the data field); distinct by case hash"
-        ' Also: 2000 real DF17 frames (leg corpus), replacement parity fields copied from the data part, keyword and positional encode flag, four concurrent callers (leg threads), the admission test of the demodulator _check_msg as a history on one reader incl. RtlReader(debug=True) (leg admission), 140 000 / 1.3 million distinct frames in a row in one process (leg volume), the first calls of a freshly imported package made by four threads at once (leg first_use), flags given as 1 / numpy.True_ / numpy.int64(1), frames whose parity is off by the address of a squitter shown before and replies of the other formats in the admission history, sample buffers with corrupted and with smeared squitters through _process_buffer (leg demodulated).')
+        ' Also: 2000 real DF17 frames (leg corpus), replacement parity fields copied from the data part, keyword and positional encode flag, four concurrent callers (leg threads), the admission test of the demodulator _check_msg as a history on one reader incl. RtlReader(debug=True) (leg admission), 140 000 / 1.3 million distinct frames in a row in one process (leg volume), the first calls of a freshly imported package made by four threads at once (leg first_use), flags given as 1 / numpy.True_ / numpy.int64(1), frames whose parity is off by the address of a squitter shown before and replies of the other formats in the admission history, sample buffers with corrupted and with smeared squitters through _process_buffer (leg demodulated).'
+        ' Also: data parities with a value of its own (FFFFFF, 000000, ...) by a GF(2) solve.')
 ASSUMPTIONS = ["hex strings of exactly 14 or 28 digits",
                "completeness of the weight<=5 detection claim over all frames rests on implementation linearity, which is sampled (leg linearity)"]
 
